@@ -22,6 +22,27 @@ def setup(ctx):
 
 def make(rng, fam, index, dim, neutral=False):
     f, dom = make_(rng, fam, index, dim, neutral)
+    if not neutral and rng.random() < 0.15:
+        # the parameters are public attributes: a caller may re-tune a function object after constructing it (rescale the basis to the
+        # data range, raise a degree); evaluation and derivatives must keep describing one and the same function
+        if fam == 'Legendre':
+            if rng.random() < 0.5:
+                f.domain = fl(rng, rng.uniform(0.3, 4.0))
+                dom = (-float(f.domain), float(f.domain))
+            else:
+                f.degree = it(rng, rng.integers(0, 7))
+        elif fam == 'Monomial':
+            if rng.random() < 0.5:
+                f.exponent = it(rng, rng.integers(0, 6))
+            else:
+                f.prefactor = fl(rng, rng.uniform(-3, 3))
+        elif fam in ('Sin', 'Cos'):
+            f.alpha = fl(rng, rng.uniform(-4, 4))
+        elif fam in ('GaussFunction', 'PeriodicGaussFunction'):
+            if rng.random() < 0.5:
+                f.mean = fl(rng, rng.uniform(-2, 2))
+            else:
+                f.variance = fl(rng, rng.uniform(0.1, 3.0))
     return f, dom
 
 
